@@ -34,7 +34,10 @@ RULE = (
     "ndarrays modified in place between calls; re-configuration histories: built with P1, optionally used, then 1..3 of uncertainty / "
     "spacing / shape<->spacing / region None<->given / adjust / center_coordinates / drop_coords changed by set_params, attribute "
     "assignment or clone().set_params and used with the weights the rule in force needs - judged with the get_params snapshot taken "
-    "just before the call) or one variance_to_weights call (arrays of 1..40 variances 10^[-6,6] with zeros, 1e-300, NaNs, negatives, values "
+    "just before the call; equivalent spellings of spacing / shape / region / flags (Python and numpy integers, 0-d arrays, lists, "
+    "ndarrays, np.bool_, 1/0) with falsy-but-valid values (extra coordinate 0 everywhere, weights exactly 1); large-offset data with "
+    "|mean| = 1e4..2e6 spreads for all three rules) or one variance_to_weights call (tol as Python/numpy int or float, np.float32, 0-d "
+    "array; dtype as str / type / np.dtype; bare Python and numpy scalars, all-zero variances; arrays of 1..40 variances 10^[-6,6] with zeros, 1e-300, NaNs, negatives, values "
     "at / beside tol, 1-D/2-D/0-d, tuples of 1..3 arrays, lists, Series, read-only, float32/int input, tol in {default,0,1e-3,10}, "
     "dtype float64/float32). Non-trivial BlockMean case = at least 2 blocks with >= 2 members whose rule quantity (variance, sum of "
     "weights, weighted variance) differs; non-trivial variance_to_weights case = at least 2 distinct variances above tol plus a "
@@ -43,7 +46,8 @@ RULE = (
 ASSUMPTIONS = [
     "block membership of points within 1e-9 block sizes of a block edge is taken from the nested block_split event (C08: either neighbour)",
     "means compared with tolerance 64*eps*n_members*max|value|; reference sums use math.fsum",
-    "a block variance carries an absolute error bound 64*eps*n*max|d|^2: weights are compared with the propagated relative tolerance, "
+    "a block variance carries an absolute error bound 64*eps*n*(max|d|*sigma + sigma^2) (the conditioning of the shift-invariant variance, "
+    "what a two-pass algorithm achieves): weights are compared with the propagated relative tolerance, "
     "components whose tolerance exceeds 1e-3 or whose variance lies within that bound of the 1e-15 cutoff are skipped (counted)",
     "the unweighted block variance may follow ddof=0 or ddof=1 provided one convention explains every block of a component",
     "variances at or below variance_to_weights' documented default tol=1e-15 (single-member and constant blocks) get weight 1",
@@ -56,19 +60,19 @@ ASSUMPTIONS = [
 ]
 FLOORS = {
     "quick": {
-        "eval:blockmean_returns": 730, "eval:blockmean_layout": 730, "eval:labels_vs_reference_geometry": 730,
-        "eval:params_unchanged_by_filter": 740, "eval:block_mean_value": 10800, "eval:block_coordinate": 14700,
-        "eval:block_weight_rule": 1100, "eval:block_weight_range": 1200, "eval:blockmean_inputs_unmodified": 740,
-        "eval:uncertainty_without_weights_rejected": 17, "eval:v2w_values": 2100, "eval:v2w_input_unmodified": 2000,
+        "eval:blockmean_returns": 770, "eval:blockmean_layout": 770, "eval:labels_vs_reference_geometry": 770,
+        "eval:params_unchanged_by_filter": 790, "eval:block_mean_value": 11700, "eval:block_coordinate": 16000,
+        "eval:block_weight_rule": 1200, "eval:block_weight_range": 1300, "eval:blockmean_inputs_unmodified": 790,
+        "eval:uncertainty_without_weights_rejected": 17, "eval:v2w_values": 2200, "eval:v2w_input_unmodified": 2000,
         "eval:v2w_returns": 2000, "eval:series_backing_store_unmodified": 32, "distinct_nontrivial": 1400,
-        "class:rule:variance": 230, "class:rule:uncertainty": 210, "class:rule:weighted_variance": 240,
-        "v2w_class:readonly": 1000, "v2w_class:has_nan": 480, "class:data_dtype_present:int16": 66,
-        "class:data_dtype_present:int32": 71, "class:data_dtype_present:int64": 70, "class:data_dtype_present:float32": 100,
-        "block_weight_rule_judged:data_dtype:int16": 89, "block_weight_rule_judged:data_dtype:int32": 85,
-        "block_weight_rule_judged:data_dtype:int64": 88, "block_weight_rule_judged:data_dtype:float32": 83,
-        "class:mixed_data_dtypes:integer_then_float64": 23, "class:mixed_data_dtypes:float64_then_integer": 22,
-        "class:mixed_data_dtypes:float32_then_float64": 16, "class:mixed_data_dtypes:float64_then_float32": 17,
-        "class:weights_dtype_present:int32": 62, "class:weights_dtype_present:int64": 54, "class:history:reuse_calls": 110,
+        "class:rule:variance": 240, "class:rule:uncertainty": 230, "class:rule:weighted_variance": 250,
+        "v2w_class:readonly": 1000, "v2w_class:has_nan": 470, "class:data_dtype_present:int16": 66,
+        "class:data_dtype_present:int32": 81, "class:data_dtype_present:int64": 79, "class:data_dtype_present:float32": 110,
+        "block_weight_rule_judged:data_dtype:int16": 92, "block_weight_rule_judged:data_dtype:int32": 100,
+        "block_weight_rule_judged:data_dtype:int64": 96, "block_weight_rule_judged:data_dtype:float32": 100,
+        "class:mixed_data_dtypes:integer_then_float64": 27, "class:mixed_data_dtypes:float64_then_integer": 25,
+        "class:mixed_data_dtypes:float32_then_float64": 18, "class:mixed_data_dtypes:float64_then_float32": 19,
+        "class:weights_dtype_present:int32": 62, "class:weights_dtype_present:int64": 66, "class:history:reuse_calls": 110,
         "class:history:reuse_calls:region_none": 78, "class:history:reuse_calls:region_given": 11,
         "class:history:reuse_calls:rule_variance": 30, "class:history:reuse_calls:rule_uncertainty": 22,
         "class:history:reuse_calls:rule_weighted_variance": 22, "class:history:inplace_calls": 57,
@@ -83,22 +87,42 @@ FLOORS = {
         "class:reconfigured:param:uncertainty": 25, "class:reconfigured:param:spacing": 11,
         "class:reconfigured:param:shape_vs_spacing": 8, "class:reconfigured:param:region": 9,
         "class:reconfigured:param:adjust": 10, "class:reconfigured:param:center_coordinates": 11,
-        "class:reconfigured:param:drop_coords": 11,
+        "class:reconfigured:param:drop_coords": 11, "class:spelling_group:spacing:scalar_as_python_int": 6,
+        "class:spelling_group:spacing:scalar_as_numpy_integer": 4, "class:spelling_group:spacing:scalar_as_numpy_floating": 4,
+        "class:spelling_group:spacing:scalar_as_0d_array": 5, "class:spelling_group:spacing:as_list": 4,
+        "class:spelling_group:spacing:as_ndarray": 8, "class:spelling_group:spacing:elements_integers": 13,
+        "class:spelling_group:shape:as_list": 2, "class:spelling_group:shape:as_ndarray": 7,
+        "class:spelling_group:shape:elements_numpy_scalars": 2, "class:spelling_group:region:as_tuple": 110,
+        "class:spelling_group:region:as_ndarray": 12, "class:spelling_group:region:elements_integers": 19,
+        "class:spelling_group:flag_as_int=True": 29, "class:spelling_group:flag_as_int=False": 45,
+        "class:spelling_group:flag_as_numpy_bool=True": 32, "class:spelling_group:flag_as_numpy_bool=False": 40,
+        "class:falsy:extra_coordinate_exactly_0_everywhere": 28, "class:falsy:weights_exactly_1": 19,
+        "class:large_offset_data(|mean|>1e4*spread):rule:variance": 13,
+        "class:large_offset_data(|mean|>1e4*spread):rule:uncertainty": 9,
+        "class:large_offset_data(|mean|>1e4*spread):rule:weighted_variance": 12,
+        "block_weight_rule_judged:large_offset_data:rule:variance": 19,
+        "block_weight_rule_judged:large_offset_data:rule:uncertainty": 16,
+        "block_weight_rule_judged:large_offset_data:rule:weighted_variance": 20, "v2w_class:all_variances_exactly_0": 140,
+        "v2w_class:bare_scalar:float": 18, "v2w_class:bare_scalar:int": 9, "v2w_class:bare_scalar:np.float64": 8,
+        "v2w_class:tol_spelled_as:int": 35, "v2w_class:tol_spelled_as:np.int64": 35, "v2w_class:tol_spelled_as:np.float32": 68,
+        "v2w_class:tol_spelled_as:np.float64": 100, "v2w_class:tol_spelled_as:ndarray0d(float64)": 100,
+        "v2w_class:dtype_spelled_as:type:float32": 18, "v2w_class:dtype_spelled_as:np.dtype(float32)": 19,
+        "v2w_class:dtype_spelled_as:'float32'": 14, "v2w_class:dtype_spelled_as:type:float": 15,
     },
     "thorough": {
-        "eval:blockmean_returns": 10900, "eval:blockmean_layout": 10900, "eval:labels_vs_reference_geometry": 10900,
-        "eval:params_unchanged_by_filter": 11100, "eval:block_mean_value": 167100, "eval:block_coordinate": 224100,
-        "eval:block_weight_rule": 17900, "eval:block_weight_range": 18600, "eval:blockmean_inputs_unmodified": 11100,
-        "eval:uncertainty_without_weights_rejected": 180, "eval:v2w_values": 31500, "eval:v2w_input_unmodified": 30000,
-        "eval:v2w_returns": 30000, "eval:series_backing_store_unmodified": 240, "distinct_nontrivial": 21400,
-        "class:rule:variance": 3600, "class:rule:uncertainty": 3400, "class:rule:weighted_variance": 3800,
-        "v2w_class:readonly": 15600, "v2w_class:has_nan": 7200, "class:data_dtype_present:int16": 1200,
-        "class:data_dtype_present:int32": 1200, "class:data_dtype_present:int64": 1200, "class:data_dtype_present:float32": 1900,
-        "block_weight_rule_judged:data_dtype:int16": 1500, "block_weight_rule_judged:data_dtype:int32": 1500,
-        "block_weight_rule_judged:data_dtype:int64": 1500, "block_weight_rule_judged:data_dtype:float32": 1500,
-        "class:mixed_data_dtypes:integer_then_float64": 470, "class:mixed_data_dtypes:float64_then_integer": 400,
-        "class:mixed_data_dtypes:float32_then_float64": 380, "class:mixed_data_dtypes:float64_then_float32": 370,
-        "class:weights_dtype_present:int32": 1000, "class:weights_dtype_present:int64": 1000, "class:history:reuse_calls": 1600,
+        "eval:blockmean_returns": 11600, "eval:blockmean_layout": 11600, "eval:labels_vs_reference_geometry": 11600,
+        "eval:params_unchanged_by_filter": 11800, "eval:block_mean_value": 178000, "eval:block_coordinate": 241900,
+        "eval:block_weight_rule": 19500, "eval:block_weight_range": 19900, "eval:blockmean_inputs_unmodified": 11800,
+        "eval:uncertainty_without_weights_rejected": 180, "eval:v2w_values": 33000, "eval:v2w_input_unmodified": 31300,
+        "eval:v2w_returns": 31300, "eval:series_backing_store_unmodified": 240, "distinct_nontrivial": 22400,
+        "class:rule:variance": 3900, "class:rule:uncertainty": 3600, "class:rule:weighted_variance": 3900,
+        "v2w_class:readonly": 16200, "v2w_class:has_nan": 7000, "class:data_dtype_present:int16": 1200,
+        "class:data_dtype_present:int32": 1300, "class:data_dtype_present:int64": 1300, "class:data_dtype_present:float32": 1900,
+        "block_weight_rule_judged:data_dtype:int16": 1500, "block_weight_rule_judged:data_dtype:int32": 1700,
+        "block_weight_rule_judged:data_dtype:int64": 1600, "block_weight_rule_judged:data_dtype:float32": 1800,
+        "class:mixed_data_dtypes:integer_then_float64": 550, "class:mixed_data_dtypes:float64_then_integer": 500,
+        "class:mixed_data_dtypes:float32_then_float64": 400, "class:mixed_data_dtypes:float64_then_float32": 380,
+        "class:weights_dtype_present:int32": 1100, "class:weights_dtype_present:int64": 1200, "class:history:reuse_calls": 1600,
         "class:history:reuse_calls:region_none": 1200, "class:history:reuse_calls:region_given": 390,
         "class:history:reuse_calls:rule_variance": 560, "class:history:reuse_calls:rule_uncertainty": 520,
         "class:history:reuse_calls:rule_weighted_variance": 530, "class:history:inplace_calls": 860,
@@ -113,7 +137,28 @@ FLOORS = {
         "class:reconfigured:param:uncertainty": 460, "class:reconfigured:param:spacing": 200,
         "class:reconfigured:param:shape_vs_spacing": 190, "class:reconfigured:param:region": 200,
         "class:reconfigured:param:adjust": 200, "class:reconfigured:param:center_coordinates": 200,
-        "class:reconfigured:param:drop_coords": 200,
+        "class:reconfigured:param:drop_coords": 200, "class:spelling_group:spacing:scalar_as_python_int": 110,
+        "class:spelling_group:spacing:scalar_as_numpy_integer": 100,
+        "class:spelling_group:spacing:scalar_as_numpy_floating": 110, "class:spelling_group:spacing:scalar_as_0d_array": 100,
+        "class:spelling_group:spacing:as_list": 96, "class:spelling_group:spacing:as_ndarray": 130,
+        "class:spelling_group:spacing:elements_integers": 230, "class:spelling_group:shape:as_list": 62,
+        "class:spelling_group:shape:as_ndarray": 140, "class:spelling_group:shape:elements_numpy_scalars": 69,
+        "class:spelling_group:region:as_tuple": 1800, "class:spelling_group:region:as_ndarray": 230,
+        "class:spelling_group:region:elements_integers": 390, "class:spelling_group:flag_as_int=True": 530,
+        "class:spelling_group:flag_as_int=False": 760, "class:spelling_group:flag_as_numpy_bool=True": 520,
+        "class:spelling_group:flag_as_numpy_bool=False": 730, "class:falsy:extra_coordinate_exactly_0_everywhere": 500,
+        "class:falsy:weights_exactly_1": 330, "class:large_offset_data(|mean|>1e4*spread):rule:variance": 210,
+        "class:large_offset_data(|mean|>1e4*spread):rule:uncertainty": 180,
+        "class:large_offset_data(|mean|>1e4*spread):rule:weighted_variance": 210,
+        "block_weight_rule_judged:large_offset_data:rule:variance": 350,
+        "block_weight_rule_judged:large_offset_data:rule:uncertainty": 300,
+        "block_weight_rule_judged:large_offset_data:rule:weighted_variance": 360, "v2w_class:all_variances_exactly_0": 2200,
+        "v2w_class:bare_scalar:float": 310, "v2w_class:bare_scalar:int": 150, "v2w_class:bare_scalar:np.float64": 150,
+        "v2w_class:tol_spelled_as:int": 600, "v2w_class:tol_spelled_as:np.int64": 600,
+        "v2w_class:tol_spelled_as:np.float32": 1000, "v2w_class:tol_spelled_as:np.float64": 1700,
+        "v2w_class:tol_spelled_as:ndarray0d(float64)": 1600, "v2w_class:dtype_spelled_as:type:float32": 330,
+        "v2w_class:dtype_spelled_as:np.dtype(float32)": 310, "v2w_class:dtype_spelled_as:'float32'": 310,
+        "v2w_class:dtype_spelled_as:type:float": 250,
     },
 }
 JOBS = {"quick": 1, "thorough": 16}
@@ -125,8 +170,8 @@ EPS = blk.EPS
 
 def plan(tier):
     if tier == "quick":
-        return collections.OrderedDict(blockmean=130, plateau=30, series=36, reject=8, nested=6, v2w=45, v2w_nested_readonly=8, reuse=20, inplace=12, reconfigure=30)
-    return collections.OrderedDict(blockmean=1950, plateau=450, series=540, reject=60, nested=80, v2w=680, v2w_nested_readonly=60, reuse=300, inplace=180, reconfigure=450)
+        return collections.OrderedDict(blockmean=105, plateau=26, series=30, reject=8, nested=6, v2w=45, v2w_nested_readonly=8, reuse=20, inplace=12, reconfigure=30, spellings=36, large_offset=18)
+    return collections.OrderedDict(blockmean=1580, plateau=390, series=450, reject=60, nested=80, v2w=680, v2w_nested_readonly=60, reuse=300, inplace=180, reconfigure=450, spellings=540, large_offset=270)
 
 
 # ----------------------------------------------------------------------
@@ -265,7 +310,11 @@ def _judge_block_weights(call, comp, observed, rule):
         ss = np.array([s[2] for s in stats])
         maxabs = np.array([s[4] for s in stats])
         const = np.array([s[5] for s in stats])
-        bounds = 64 * eps * nmem * maxabs ** 2 + blk.TINY
+        # error bound of a block variance: the variance is shift invariant, so its condition number with respect to the data is
+        # max|d|/sigma (not its square): 64*eps*n*(max|d|*sigma + sigma^2). A one-pass "mean of squares minus squared mean"
+        # loses max|d|^2*eps and is outside this bound as soon as the mean dominates the spread.
+        sigma = np.sqrt(np.maximum(ss / np.maximum(nmem if rule == "variance" else np.array([s[3] for s in stats]), blk.TINY), 0.0))
+        bounds = 64 * eps * nmem * (maxabs * sigma + sigma ** 2) + blk.TINY
         # an unweighted single member deviates from its own mean (x/1) by exactly zero in any arithmetic; a weighted one
         # does not (x*w/w may be one ulp off x), and squared that ulp exceeds the absolute 1e-15 cutoff for |x| > ~1e8
         noise = 4 * (nmem * eps * maxabs) ** 2
@@ -295,13 +344,15 @@ def _judge_block_weights(call, comp, observed, rule):
     if max(float(np.max(rel)) for _, _, rel in candidates) > (2e-2 if narrow else 1e-3):
         out["status"] = "skipped:ill_conditioned_variance(float32 operand, tolerance>2e-2)" if narrow else "skipped:ill_conditioned_variance(tolerance>1e-3)"
         return out
-    matched = []
+    matched, ratios = [], []
     for name, want, rel in candidates:
         bound = rel * want + blk.TINY
         err = np.abs(got - want)
         if np.all(err <= bound):
             matched.append(name)
-            out["worst"] = max(out["worst"], float(np.max(err / bound)))
+            ratios.append(float(np.max(err / bound)))
+    if ratios:
+        out["worst"] = min(ratios)  # error relative to tolerance under the convention that explains the result best
     out["expected"] = {name: want for name, want, _ in candidates}
     if matched:
         out["convention"] = "+".join(matched)
@@ -362,6 +413,19 @@ def install(tap, run):
                 classes.add("input_dtype:" + str(np.asarray(arr).dtype))
         if isinstance(variance, tuple):
             classes.add("tuple_of_%d" % len(variance))
+        if type(tol) is not float:
+            classes.add("tol_spelled_as:" + blk.describe(tol))
+        if not (isinstance(dtype, str) and dtype == "float64"):
+            classes.add("dtype_spelled_as:" + (repr(dtype) if isinstance(dtype, str) else blk.describe(dtype) if not isinstance(dtype, np.dtype) else "np.dtype(%s)" % dtype))
+        for arr in arrays:
+            if isinstance(arr, (int, float, np.generic)):
+                classes.add("bare_scalar:" + blk.describe(arr))
+            try:
+                flat = np.atleast_1d(np.array(np.asarray(arr), dtype="float64"))
+                if flat.size and not np.any(flat != 0):
+                    classes.add("all_variances_exactly_0")
+            except (TypeError, ValueError):
+                pass
         if float(tol) != DEFAULT_TOL:
             classes.add("custom_tol")
         if np.dtype(dtype) != np.dtype("float64"):
@@ -510,6 +574,12 @@ def install(tap, run):
                           witness(failure=f, result=result), key="coordinate")
 
         informative = False
+        offsets = []
+        for c in range(call.ncomp):
+            spread = float(np.std(call.data[c]))
+            offsets.append(call.npoints > 1 and spread > 0 and abs(float(np.mean(call.data[c]))) > 1e4 * spread)
+        if any(offsets):
+            run.count("class:large_offset_data(|mean|>1e4*spread):rule:" + rule)
         for c in range(call.ncomp):
             got = bweights[c]
             run.evaluated("block_weight_range")
@@ -519,9 +589,13 @@ def install(tap, run):
             verdict = _judge_block_weights(call, c, got, rule)
             if verdict["status"] != "judged":
                 run.count(verdict["status"])
+                if offsets[c]:
+                    run.count("skipped:large_offset_component:" + verdict["status"].split(":", 1)[1][:40])
                 continue
             run.evaluated("block_weight_rule")
             run.count("block_weight_rule_judged:data_dtype:" + call.data_dtypes[c])
+            if offsets[c]:
+                run.count("block_weight_rule_judged:large_offset_data:rule:" + rule)
             run.count("block_weights_judged", got.size)
             informative = informative or verdict["informative"]
             if verdict["problem"]:
@@ -558,6 +632,20 @@ def _weights(rng, size, ncomp):
     return weights
 
 
+def _large_offset_fields(rng, east, ncomp):
+    """mean >> spread (1e4 .. 2e6 spreads, |values| <= ~2e7), spreads differing from place to place; float64 or wide integers."""
+    out = []
+    for _ in range(ncomp):
+        spread = 10 ** rng.uniform(0.5, 1.0)
+        offset = spread * 10 ** rng.uniform(4.0, 6.3) * rng.choice([-1.0, 1.0])
+        local = 10 ** (rng.uniform(0.3, 1.0) * (east - east.min()) / (np.ptp(east) or 1.0))
+        d = offset + spread * local * rng.normal(size=east.size)
+        if rng.random() < 0.25:
+            d = np.round(d).astype(str(rng.choice(["int32", "int64"])))
+        out.append(d)
+    return out
+
+
 def _fields(rng, east, north, ncomp, plateau=False, dtypes=None):
     out = []
     amplitude = gen.log_uniform(rng, 1e-3, 1e3 if plateau else 1e6)
@@ -581,11 +669,14 @@ def _fields(rng, east, north, ncomp, plateau=False, dtypes=None):
     return out
 
 
-def _one_call(run, rng, verde, layout=None, rule=None, plateau=False, npoints=None):
+def _one_call(run, rng, verde, layout=None, rule=None, plateau=False, npoints=None, spelled=False, large_offset=False):
     if npoints is None:
         npoints = int(rng.choice([1, 2, 4, 8, 14, 22, 35, 60, 100, 150], p=[.02, .03, .06, .1, .15, .2, .18, .14, .08, .04]))
-    east, north = blk.make_points(rng, n=npoints)
-    kwargs = blk.make_blocks(rng, east, north, want_empty=rng.random() < 0.3)
+    if spelled:  # integral spacings / region bounds, so that every argument can also be spelled with integers
+        east, north, kwargs = blk.integer_friendly(rng)
+    else:
+        east, north = blk.make_points(rng, n=npoints)
+        kwargs = blk.make_blocks(rng, east, north, want_empty=rng.random() < 0.3)
     if rng.random() < 0.08:
         east, north = blk.snap_to_edges(rng, east, north, kwargs, fraction=0.3)
     ncomp = int(rng.choice([1, 2, 3], p=[.4, .35, .25]))
@@ -594,7 +685,7 @@ def _one_call(run, rng, verde, layout=None, rule=None, plateau=False, npoints=No
     dtypes = blk.choose_dtypes(rng, ncomp)
     if plateau:  # constant blocks of float32 data are undecidable (rounding noise of a float32 mean may exceed the 1e-15 cutoff)
         dtypes = ["float64" if d == "float32" else d for d in dtypes]
-    data = _fields(rng, east, north, ncomp, plateau, dtypes)
+    data = _large_offset_fields(rng, east, ncomp) if large_offset else _fields(rng, east, north, ncomp, plateau, dtypes)
     weights = None
     if rule != "variance":
         weights = _weights(rng, east.size, ncomp)
@@ -606,6 +697,17 @@ def _one_call(run, rng, verde, layout=None, rule=None, plateau=False, npoints=No
         kwargs["center_coordinates"] = True
     if n_extra and rng.random() < 0.7:
         kwargs["drop_coords"] = False
+    if spelled:
+        # falsy-but-valid values: an extra coordinate that is 0 everywhere, weights that are exactly 1
+        if rng.random() < 0.4:
+            extras = [np.zeros(east.size)] + extras[1:]
+            kwargs["drop_coords"] = False
+        if weights is not None and rng.random() < 0.4:
+            weights[int(rng.integers(0, ncomp))] = np.ones(east.size, dtype=str(rng.choice(["float64", "int64"])))
+        kwargs.setdefault("center_coordinates", False)
+        kwargs.setdefault("drop_coords", True)
+        kwargs.setdefault("uncertainty", False)
+        kwargs = blk.respell(rng, kwargs)
     if layout is None:
         layout = str(rng.choice(blk.LAYOUTS))
     coords = blk.wrap_all([east, north] + extras, layout, rng)
@@ -749,6 +851,8 @@ def _variance_array(rng, size=None):
     scale = 10 ** rng.uniform(-6, 6)
     var = scale * 10 ** rng.uniform(-3, 3, size)
     tol = float(rng.choice([DEFAULT_TOL, DEFAULT_TOL, DEFAULT_TOL, 0.0, 1e-3, 10.0]))
+    if rng.random() < 0.3:
+        tol = float(np.float32(tol))  # a value np.float32 can spell exactly (see _spell_tol)
     specials = [0.0, 1e-300, np.nan, 1e-16, tol, tol * (1 + 1e-6), tol * (1 - 1e-6), np.nextafter(tol, np.inf), -abs(scale), 5e-324]
     probs = [.2, .1, .25, .1, .1, .07, .07, .03, .05, .03]
     for k in range(size):
@@ -765,7 +869,7 @@ def _wrap_variance(rng, var):
     import pandas as pd
 
     kind = str(rng.choice(["1d", "readonly", "2d", "fortran", "strided", "series", "list", "float32", "int", "0d"],
-                          p=[.22, .2, .12, .06, .08, .1, .07, .07, .04, .04]))
+                          p=[.2, .18, .12, .06, .08, .1, .07, .07, .04, .08]))
     if kind == "list":
         return [float(v) for v in var], kind
     if kind == "float32":
@@ -774,10 +878,33 @@ def _wrap_variance(rng, var):
         clean = np.where(np.isnan(var), 0.0, var)
         return np.clip(np.round(clean), -1000, 10 ** 9).astype("int64"), kind
     if kind == "0d":
+        pick = rng.random()
+        if pick < 0.3:
+            return float(var[0]), "python_float"  # a bare Python number (0.0 and nan included)
+        if pick < 0.45:
+            return 0, "python_int_0"  # falsy but valid: a variance that is exactly zero
+        if pick < 0.6:
+            return np.float64(var[0]), "numpy_scalar"
         return np.array(float(var[0])), kind
     if kind == "series":
         return pd.Series(var.copy(), index=rng.permutation(var.size) + 7), kind
     return blk.wrap(var, kind, rng), kind
+
+
+def _spell_tol(rng, tol):
+    """The same tolerance as Python float / int, numpy float64 / float32 / integer scalar or 0-d array (only exact spellings)."""
+    options = ["float", "np.float64", "ndarray0d"]
+    if float(np.float32(tol)) == tol:
+        options.append("np.float32")
+    if float(tol).is_integer():
+        options += ["int", "np.int64"]
+    kind = str(rng.choice(options))
+    return {"float": float(tol), "np.float64": np.float64(tol), "ndarray0d": np.array(tol), "np.float32": np.float32(tol),
+            "int": int(tol), "np.int64": np.int64(tol)}[kind]
+
+
+DTYPE_SPELLINGS = {"float32": ["float32", np.float32, np.dtype("float32"), "f4", "<f4"],
+                   "float64": ["float64", np.float64, np.dtype("float64"), float, "f8", "d"]}
 
 
 def _v2w_calls(run, rng, verde):
@@ -785,9 +912,10 @@ def _v2w_calls(run, rng, verde):
         var, tol = _variance_array(rng)
         kwargs = {}
         if tol != DEFAULT_TOL or rng.random() < 0.1:
-            kwargs["tol"] = tol
-        if rng.random() < 0.2:
-            kwargs["dtype"] = str(rng.choice(["float32", "float64"])) if rng.random() < 0.7 else np.float32
+            kwargs["tol"] = _spell_tol(rng, tol)
+        if rng.random() < 0.3:
+            spellings = DTYPE_SPELLINGS[str(rng.choice(["float32", "float64"]))]
+            kwargs["dtype"] = spellings[int(rng.integers(0, len(spellings)))]
         if rng.random() < 0.25:
             parts = []
             for _ in range(int(rng.integers(1, 4))):
@@ -806,7 +934,13 @@ def run_case(run, tap, stream, index, rng):
     import pandas as pd
     import verde
 
-    if stream == "reconfigure":
+    if stream == "spellings":
+        for _ in range(CALLS_PER_CASE):
+            _one_call(run, rng, verde, spelled=True, layout=str(rng.choice(["1d", "1d", "2d", "series", "readonly"])), npoints=0)
+    elif stream == "large_offset":
+        for _ in range(CALLS_PER_CASE):
+            _one_call(run, rng, verde, large_offset=True, npoints=int(rng.choice([8, 14, 22, 35, 60])))
+    elif stream == "reconfigure":
         for _ in range(4):
             info = _reconfigured(run, rng, verde)
     elif stream == "reuse":
@@ -832,7 +966,7 @@ def run_case(run, tap, stream, index, rng):
             data = tuple(_fields(rng, east, north, int(rng.integers(1, 4))))
             weights = None if rng.random() < 0.5 else tuple([None] * len(data))
             try:
-                verde.BlockMean(uncertainty=True, **kwargs).filter((east, north), data if len(data) > 1 else data[0], weights if len(data) > 1 else None)
+                verde.BlockMean(uncertainty=blk.spell_flag(rng, True), **kwargs).filter((east, north), data if len(data) > 1 else data[0], weights if len(data) > 1 else None)
             except ValueError:
                 run.count("rejected:uncertainty_without_weights(ValueError)")
     elif stream == "nested":
